@@ -285,6 +285,10 @@ def make_body(job):
       check('jitter.finished', g.ready() and g.exception is None)
       check('jitter.pending-cleared', not s._pending_endpoints)
       check('jitter.size-kept-or-grown-by-one', s._size in (na, na + 1))
+      # the round is a swap (size unchanged) whenever more than min_size members are healthy after the expansion
+      healthy_after = sum([ite(c.st[i] <= ChannelState.Busy, 1, 0) for i in range(1, na + 1)]) + 1
+      check('jitter.swap-when-contraction-possible', implies(healthy_after > c.cfg[0], s._size == na))
+      check('jitter.grows-only-when-contraction-impossible', implies(s._size == na + 1, healthy_after <= c.cfg[0]))
       partition_ok(c, 'jitter')
       q._worker.kill(block=False)
   return body
